@@ -551,10 +551,15 @@ func compileV2Metadata(tables []TableMetadata, logger StdLogger) {
 
 		for _, columnName := range table.OrderedColumns {
 			column := table.Columns[columnName]
+			// the position comes from the schema tables; one that does not fit is skipped
 			if column.Kind == ColumnPartitionKey {
-				table.PartitionKey[column.ComponentIndex] = column
+				if column.ComponentIndex >= 0 && column.ComponentIndex < len(table.PartitionKey) {
+					table.PartitionKey[column.ComponentIndex] = column
+				}
 			} else if column.Kind == ColumnClusteringKey {
-				table.ClusteringColumns[column.ComponentIndex] = column
+				if column.ComponentIndex >= 0 && column.ComponentIndex < len(table.ClusteringColumns) {
+					table.ClusteringColumns[column.ComponentIndex] = column
+				}
 			}
 		}
 	}
@@ -563,10 +568,18 @@ func compileV2Metadata(tables []TableMetadata, logger StdLogger) {
 // returns the count of coluns with the given "kind" value.
 func componentColumnCountOfType(columns map[string]*ColumnMetadata, kind ColumnKind) int {
 	maxComponentIndex := -1
+	count := 0
 	for _, column := range columns {
-		if column.Kind == kind && column.ComponentIndex > maxComponentIndex {
-			maxComponentIndex = column.ComponentIndex
+		if column.Kind == kind {
+			count++
+			if column.ComponentIndex > maxComponentIndex {
+				maxComponentIndex = column.ComponentIndex
+			}
 		}
+	}
+	if maxComponentIndex+1 > count {
+		// positions are 0..count-1; do not size the slice by a position the rows cannot justify
+		return count
 	}
 	return maxComponentIndex + 1
 }
